@@ -59,6 +59,7 @@ def extra_items(u):
     u.item('response.rs', 'pub struct CoapResponse')
     u.impl_fns('response.rs', 'impl CoapResponse', ['new', 'set_status', 'get_status'])
     u.item('request.rs', 'pub struct CoapRequest<Endpoint>')
+    u.item('observe.rs', 'pub fn create_notification')
     u.impl_fns('request.rs', 'impl<Endpoint> CoapRequest<Endpoint>', ['from_packet', 'apply_from_error', 'set_method', 'get_method', 'get_observe_flag', 'set_observe_flag'])
 
 
@@ -88,6 +89,15 @@ def build(repo):
             final(self).message.token == old(self).message.token, final(self).message.options == old(self).message.options, final(self).message.payload == old(self).message.payload,
             final(self).response == old(self).response, final(self).source == old(self).source''', props=['C19'])
     u.contract((RQ, 'get_method'), '        ensures *r == method_of(self.message.header.code)', props=['C19'])
+    u.contract('create_notification', '''    requires token@.len() <= 8
+    ensures
+        ver_of(r.header.ver_type_tkl) == 1,
+        type_bits_of(r.header.ver_type_tkl) == (if is_confirmable { 0int } else { 1int }),
+        tkl_of(r.header.ver_type_tkl) == token@.len(),
+        r.header.code == MessageClass::Response(ResponseType::Content),
+        r.header.message_id == message_id, r.token@ == token@, r.payload@ == payload@,
+        // a single Observe option carrying the sequence number as a minimal uint
+        opts_view(r.options) == Map::<u16, Seq<Seq<u8>>>::empty().insert(6, seq![uint_be_min(sequence as nat)])''', props=['C15'])
     P = 'impl Packet'
     u.contract((P, 'set_content_format'), '''        ensures opts_view(final(self).options) == opts_view(old(self).options).insert(12, seq![uint_be_min(usize_of_cf(cf) as nat)]),
             same_but_options(*final(self), *old(self))''', props=['C19', 'C07'])
